@@ -5,7 +5,7 @@
 # Imports
 ###############################################################################
 
-from typing import List, Optional, Tuple, TypeVar, Union
+from typing import Any, List, Optional, Tuple, TypeVar, Union
 
 import math
 
@@ -839,8 +839,20 @@ def _simplify_exponentiation(expr: HplBinaryOperator) -> HplExpression:
         if isinstance(a, HplLiteral):
             if a.value == 1 or a.value == 0:
                 return a
+            if _is_huge_integer_power(a.value, b.value):
+                return expr  # leave it unfolded
             return HplLiteral.number(a.value ** b.value)
     return expr
+
+
+def _is_huge_integer_power(base: Any, exponent: Any) -> bool:
+    # Integer powers are exact in Python: `10 ** (10 ** 10)` would not finish
+    # and `10 ** 10000` cannot even be printed (integer string conversion limit).
+    if isinstance(base, bool) or isinstance(exponent, bool):
+        return False
+    if isinstance(base, int) and isinstance(exponent, int) and exponent > 0:
+        return abs(base) > 1 and exponent * abs(base).bit_length() > 4096
+    return False
 
 
 @typechecked
